@@ -498,6 +498,52 @@ def check_verify_entry(prog, chk, rule_id):
                % (want_hash, want_level, seen.get("hash"), seen.get("level"), seen.get("sig"), paths[0].ret), loc=fn.loc(), fn=fn)
 
 
+def check_verify_verdict(prog, chk, rule_id):
+    """KSI_Signature_verifyWithPolicy turns the verdict into the status every parse / sign / extend call reports.  "The final verdict
+    is that of the last policy evaluated": evaluated for each verdict of the last policy x what the earlier policies of a fallback
+    chain left in the list of policy results - the status is KSI_OK exactly for the verdict OK, whatever the list holds."""
+    import itertools
+    from ksirules.interp import TOP, Interp, Ptr, succeed_model, list_overrides
+    from ksirules.model import lvalue_key, strip
+    fn = prog.fn("KSI_Signature_verifyWithPolicy", "signature_helper.c")
+    sp, hp, lp, pp, cp = [p["n"] for p in fn.params]
+    K = prog.const
+    OK, NA, FAIL = K("KSI_VER_RES_OK"), K("KSI_VER_RES_NA"), K("KSI_VER_RES_FAIL")
+    names = {OK: "OK", NA: "NA", FAIL: "FAIL"}
+    for final, earlier in itertools.product((OK, NA, FAIL), ((), (FAIL,), (NA, FAIL), (OK,))):
+        lists = {"PRES": [Ptr("PR%d" % k) for k in range(len(earlier) + 1)], "RRES": [Ptr("RR0")]}
+        length, element_at = list_overrides(lists)
+
+        def verify(I, p, node, args):
+            I.write(p, lvalue_key(strip(node["a"][2])["e"], I.fn), Ptr("RES"))
+            return 0
+
+        def init(I, p, node, args):
+            key = lvalue_key(strip(node["a"][0])["e"], I.fn)
+            for f, v in (("documentHash", 0), ("docAggrLevel", 0), ("signature", 0), ("ctx", args[1]), ("extendingAllowed", 0), ("userPublication", 0),
+                         ("userPublicationsFile", 0), ("tempData", 0)):
+                I.write(p, "%s.%s" % (key, f), v)
+            return 0
+        inputs = {sp: Ptr("SIG"), hp: Ptr("DOC"), lp: 0, pp: Ptr("POL"), cp: 0, "SIG->ctx": Ptr("ctx"), "RES->finalResult.resultCode": final,
+                  "RES->resultCode": final, "RES->finalResult.errorCode": K("KSI_VER_ERR_NONE") if final == OK else K("KSI_VER_ERR_GEN_2"),
+                  "RES->policyResults": Ptr("PRES"), "RES->ruleResults": Ptr("RRES"), "RR0->resultCode": final}
+        for k, v in enumerate(earlier + (final,)):
+            inputs["PR%d->resultCode" % k] = v
+            inputs["PR%d->errorCode" % k] = K("KSI_VER_ERR_NONE") if v == OK else K("KSI_VER_ERR_GEN_2")
+            inputs["PR%d->status" % k] = 0
+        ov = {"KSI_SignatureVerifier_verify": verify, "KSI_VerificationContext_init": init, "KSI_RuleVerificationResultList_length": length,
+              "KSI_RuleVerificationResultList_elementAt": element_at, "KSI_ERR_push": lambda I, p, n, a: TOP}
+        I = Interp(fn, inputs=inputs, call_model=succeed_model(prog, ov), on_unknown="stop", prog=prog, loop_bound=6)
+        paths = I.run()
+        chk.paths += len(paths)
+        inst = "verifyWithPolicy[last policy %s, earlier policies %s]" % (names[final], "/".join(names[v] for v in earlier) or "none")
+        if len(paths) != 1 or paths[0].undetermined or not isinstance(paths[0].ret, int):
+            raise AnalysisBroken("KSI_Signature_verifyWithPolicy: evaluation not determined for %s: %s" % (inst, [q.undetermined[:1] for q in paths]))
+        r = paths[0].ret
+        chk.ob(rule_id, inst, (r == 0) == (final == OK), "expected %s; source: status %s" % ("KSI_OK" if final == OK else "an error status", hex(r)),
+               loc=fn.loc(), fn=fn, nontrivial=bool(earlier))
+
+
 def check_comparators(prog, chk, rule_id):
     """The equality / ordering primitives every rule relies on, evaluated on byte / value level: equal iff same length and every
     octet equal (first, middle, last octet each tried), integers compared on all 64 bits, NULL never equal."""
